@@ -69,8 +69,12 @@ def main() -> int:
         import jax.numpy as jnp
         from jax2onnx import to_onnx
 
-        k = i % 5
+        k = i % 6
         try:
+            if k == 5:
+                from vlib import fnmods
+                to_onnx(fnmods.c14_gated_failing, [(2, 3)])
+                return
             if k == 0:
                 to_onnx(lambda x: jnp.tanh(x) * 2, [("B", 3)], enable_double_precision=True)
             elif k == 1:
@@ -89,7 +93,7 @@ def main() -> int:
             pass
 
     if cfg.get("warm_history"):
-        for i in range(10):
+        for i in range(12):
             noise(i)
     for i, req in enumerate(reqs):
         for r in range(cfg.get("repeat", 1)):
